@@ -152,13 +152,13 @@ pub fn run(tier: Tier) -> i32 {
 
     // S2b: large x reduced, both orders, frame
     // quick: every other (coefficient, scale pair) key of the large alphabet
-    let s2b: Vec<pairs::Outer> = if tier.thorough() { st.outers_big() } else { st.outers_big().into_iter().enumerate().filter(|(i, _)| i % 2 == 0).map(|(_, o)| o).collect() };
+    let s2b: Vec<pairs::Outer> = if tier.thorough() { st.outers_big() } else { st.outers_big().into_iter().enumerate().filter(|(i, _)| i % 3 == 0).map(|(_, o)| o).collect() };
     pairs::run_pairs(&run, &s2b, &ALL_MODES, &|_, _, _, out| out.extend_from_slice(&st.small),
         &|a, _, b, _| st.in_s1(a, b) || st.in_small(a, b), &|a, p, b, q, m, l| {
         dd_case(a, p, b, q, m, false, l);
         dd_case(b, q, a, p, m, false, l);
     });
-    run.stage("S2b large alphabet x reduced alphabet x scale frame, both orders", json!({"large":st.big.len(),"reduced":st.small.len(),"outer_keys":s2b.len(),"thinning": if tier.thorough() { "none" } else { "every 2nd (coefficient, scale pair) key" }}));
+    run.stage("S2b large alphabet x reduced alphabet x scale frame, both orders", json!({"large":st.big.len(),"reduced":st.small.len(),"outer_keys":s2b.len(),"thinning": if tier.thorough() { "none" } else { "every 3rd (coefficient, scale pair) key" }}));
     if tier.thorough() {
         pairs::run_pairs(&run, &s2b, &ALL_MODES, &|_, _, _, out| out.extend_from_slice(&st.big),
             &|a, _, b, _| st.in_s1(a, b) || st.small_set.contains(&a) || st.small_set.contains(&b), &|a, p, b, q, m, l| dd_case(a, p, b, q, m, false, l));
